@@ -2,13 +2,14 @@
 import hashlib
 import re
 
+from . import ddgen
 from . import shardgen as sg
 from .base import BaseProp
 
 
 class Prop(BaseProp):
     id = "C05"
-    groups = ["HashConsts", "ShardLayout", "ShardFacts"]
+    groups = ["HashConsts", "ShardLayout", "ShardFacts", "DedupFacts"]
     prop_file = "Props/C05.v"
     trusted_base = [
         "HMAC = keyed BLAKE3 (Gallina implementation tied to the blake3 crate by the C06 correspondence)",
@@ -21,6 +22,8 @@ class Prop(BaseProp):
     rule = ("stream c05: one shard (duplicate chunk hashes within/across xorbs, engineered groups sharing the 64-bit prefix, optional keyed re-export) + query sequences "
             "(present, absent, partial, running past a xorb end, starting mid-xorb) through the in-memory index, the on-disk shard and the keyed shard; "
             "stream c05m: histories of add/flush/keyed-export/re-open/consolidate against a real ShardFileManager with queries in between (oracle only); "
+            "stream dd: the deduper's own lookup against the pending xorb (self-references): scripted files with internal repeats across xorb cuts, every "
+            "segment compared with the model and resolved against the xorb it names (chunk identities and byte counts); "
             "non-trivial = at least one query answered with a hit; distinct by sha256 of the case text")
 
     def _queries(self, rng, cas):
@@ -151,9 +154,16 @@ class Prop(BaseProp):
                     ops += [x for x in self._queries(rng, allcas) if x != "qd -"][:6]
             ops.append("qd %s" % sg.mk_hash(rng).hex())
             mcases.append({"id": "m%d" % i, "text": " | ".join(ops), "meta": {"ncas": len(allcas)}})
-        return [{"name": "c05", "cases": cases}, {"name": "c05m", "cases": mcases, "model": False, "timeout": 600}]
+        out = [{"name": "c05", "cases": cases}, {"name": "c05m", "cases": mcases, "model": False, "timeout": 600}]
+        # the in-xorb self-reference lookup of FileDeduper (dedup_query_against_local_data)
+        for k, cfg in enumerate(ddgen.CONFIGS):
+            dcases = [{"id": "l%d_%d" % (k, i), "text": ddgen.gen_case(rng, cfg, big), "meta": {"cfg": k}} for i in range(6 if not big else 30)]
+            out.append({"name": "dd", "cases": dcases, "env": ddgen.env_of(cfg)})
+        return out
 
     def compare(self, stream, case, io, mo):
+        if stream == "dd":
+            return BaseProp.compare(self, stream, case, io, mo)
         if stream != "c05":
             return None
         if len(io) != len(mo):
@@ -177,11 +187,16 @@ class Prop(BaseProp):
         return None
 
     def nontrivial(self, stream, case, io):
+        if stream == "dd":
+            return hashlib.sha256(case["text"].encode()).hexdigest() if case["text"].count(":") >= 5 else None
         if any(" n=" in o or o.endswith(" hit") for o in io):
             return hashlib.sha256(case["text"].encode()).hexdigest()
         return None
 
     def count(self, counters, stream, case, io):
+        if stream == "dd":
+            counters["local_lookup_files"] = counters.get("local_lookup_files", 0) + sum(1 for o in io if o.startswith("F") and " iref=[]" not in o and "iref=" in o)
+            return
         for o in io:
             k = None
             if " mem n=" in o:
@@ -198,4 +213,4 @@ class Prop(BaseProp):
                 counters[k] = counters.get(k, 0) + 1
 
     def selfcheck(self, counters, tier):
-        return ["counter %s is zero" % k for k in ["mem_hits", "disk_hits", "keyed_hits", "manager_hits", "misses"] if counters.get(k, 0) == 0]
+        return ["counter %s is zero" % k for k in ["mem_hits", "disk_hits", "keyed_hits", "manager_hits", "misses", "local_lookup_files"] if counters.get(k, 0) == 0]
